@@ -473,23 +473,52 @@ func readBack(ops []op, data []byte) string {
 	return res
 }
 
-// readBackStream decodes through the connection-backed input (NewDataInputNet) while the bytes
-// arrive in fragments of random sizes; a field may be split over any number of fragments.
-func readBackStream(ops []op, data []byte, rng *vh.Rng) string {
-	c1, c2 := net.Pipe()
+// fragmentsOf cuts data into the fragments a connection will deliver: sizes 1..maxFrag, now and
+// then a fragment of 0 bytes (a Read that returns 0, nil — allowed by io.Reader).
+func fragmentsOf(data []byte, rng *vh.Rng) [][]byte {
 	maxFrag := rng.PickInt([]int{1, 2, 3, 7, 64, 4096})
-	seed := rng.Fork()
+	zeros := rng.Chance(30)
+	var frags [][]byte
+	for off := 0; off < len(data); {
+		if zeros && rng.Chance(10) {
+			frags = append(frags, []byte{})
+		}
+		n := 1 + rng.Intn(maxFrag)
+		if off+n > len(data) {
+			n = len(data) - off
+		}
+		frags = append(frags, data[off:off+n])
+		off += n
+	}
+	return frags
+}
+
+// fragLine renders fragments for the driver's RS line (`z` = empty fragment).
+func fragLine(frags [][]byte) string {
+	if len(frags) == 0 {
+		return "-"
+	}
+	ss := make([]string, len(frags))
+	for i, f := range frags {
+		if len(f) == 0 {
+			ss[i] = "z"
+		} else {
+			ss[i] = vh.Hex(f)
+		}
+	}
+	return strings.Join(ss, ",")
+}
+
+// readBackStream decodes through the connection-backed input (NewDataInputNet) while the bytes
+// arrive in the given fragments; a field may be split over any number of fragments.
+func readBackStream(ops []op, frags [][]byte) string {
+	c1, c2 := net.Pipe()
 	go func() {
 		defer c1.Close()
-		for off := 0; off < len(data); {
-			n := 1 + seed.Intn(maxFrag)
-			if off+n > len(data) {
-				n = len(data) - off
-			}
-			if _, err := c1.Write(data[off : off+n]); err != nil {
+		for _, f := range frags {
+			if _, err := c1.Write(f); err != nil {
 				return
 			}
-			off += n
 		}
 	}()
 	defer c2.Close()
@@ -607,9 +636,16 @@ func main() {
 		if len(p.bytes) > 0 && len(p.bytes) < 200000 && streamBudget > 0 && (tag != "random" || rng.Chance(25)) {
 			streamBudget--
 			rep.Count("stream-read")
-			if sb := readBackStream(ops, p.bytes, rng); sb != want {
+			frags := fragmentsOf(p.bytes, rng)
+			sb := readBackStream(ops, frags)
+			if sb != want {
 				rep.Fail("property", "stream-roundtrip:"+firstDiffKind(ops, sb, want), "read back over a fragmented connection differs from what was written",
-					map[string]interface{}{"ops": vh.Clip(p.line, 2000), "bytes": vh.Clip(vh.Hex(p.bytes), 2000), "read": vh.Clip(sb, 2000)})
+					map[string]interface{}{"ops": vh.Clip(p.line, 2000), "bytes": vh.Clip(vh.Hex(p.bytes), 2000), "fragments": vh.Clip(fragLine(frags), 2000), "read": vh.Clip(sb, 2000)})
+			}
+			// the model's connection-backed decoder (P.runC over the same fragments)
+			if len(p.bytes) < 20000 {
+				rep.Count("stream-model")
+				add("RS "+p.line+" "+fragLine(frags), sb, "stream-decode:"+kindsOf(ops), p.line)
 			}
 		}
 		// the model as reference encoder and reference decoder
